@@ -3,6 +3,7 @@
 package alt
 
 import (
+	"encoding/json"
 	"fmt"
 	"reflect"
 	"time"
@@ -66,6 +67,8 @@ func Generify(v any, options ...*Options) (n gen.Node) {
 			n = gen.String(tv)
 		case gen.String:
 			n = tv
+		case json.Number:
+			n = gen.Big(tv)
 		case time.Time:
 			n = gen.Time(tv)
 		case gen.Time:
@@ -149,6 +152,8 @@ func GenAlter(v any, options ...*Options) (n gen.Node) {
 			n = gen.String(tv)
 		case gen.String:
 			n = tv
+		case json.Number:
+			n = gen.Big(tv)
 		case time.Time:
 			n = gen.Time(tv)
 		case []any:
